@@ -437,6 +437,18 @@ func init() {
 		return "ok " + strconv.Itoa(len(cl.members)-1)
 	})
 	register("c.sync", func(a []string) string { cl.sync(); return "ok" })
+	// c.addconv: a member joins and the membership converges (the coordinator's own routing update, triggered by the join
+	// event, has been computed and pushed); no balancer pass
+	register("c.addconv", func(a []string) string {
+		r := handlers["c.add"]([]string{"nosync"})
+		if !strings.HasPrefix(r, "ok") {
+			return r
+		}
+		if c := handlers["c.converge"](nil); c == "not-converged" {
+			return c
+		}
+		return r
+	})
 	register("c.update", func(a []string) string {
 		for _, m := range cl.members {
 			if m.alive && m.db.VerifInternals().RT.Discovery().IsCoordinator() {
@@ -1688,6 +1700,7 @@ func init() {
 		return errClass(err)
 	})
 	// rawcmd <i> <arg hex>... : any RESP command; reply class
+	register("c.rawseq", rawSeq)
 	register("c.rawcmd", func(a []string) string {
 		m := cl.members[atoi(a[0])]
 		var args []interface{}
@@ -1717,6 +1730,50 @@ func init() {
 		_ = res
 		return "R"
 	})
+}
+
+// rawSeq: several commands over ONE connection (subscriber mode and whatever else a connection remembers), the
+// replies read and thrown away; then: does the member still answer on that connection's sibling?
+func rawSeq(a []string) string {
+	m := cl.members[atoi(a[0])]
+	conn, err := net.DialTimeout("tcp", m.addr, 2*time.Second)
+	if err != nil {
+		return "neterr"
+	}
+	defer conn.Close()
+	var cmdv [][]byte
+	flush := func() {
+		if len(cmdv) == 0 {
+			return
+		}
+		var b []byte
+		b = append(b, fmt.Sprintf("*%d\r\n", len(cmdv))...)
+		for _, t := range cmdv {
+			b = append(b, fmt.Sprintf("$%d\r\n", len(t))...)
+			b = append(b, t...)
+			b = append(b, '\r', '\n')
+		}
+		cmdv = nil
+		conn.SetWriteDeadline(time.Now().Add(time.Second))
+		conn.Write(b)
+		buf := make([]byte, 4096)
+		conn.SetReadDeadline(time.Now().Add(60 * time.Millisecond))
+		conn.Read(buf)
+	}
+	for _, x := range a[1:] {
+		if x == "|" {
+			flush()
+			continue
+		}
+		cmdv = append(cmdv, unhx(x))
+	}
+	flush()
+	ctx, cancel := context.WithTimeout(ctxBg, 5*time.Second)
+	defer cancel()
+	if perr := cl.rawc(m).Ping(ctx).Err(); perr != nil {
+		return "member-unresponsive:" + errClass(perr)
+	}
+	return "ok"
 }
 
 type lockTok struct {
